@@ -8,7 +8,6 @@ import (
 
 	"pgregory.net/rapid"
 
-	"go.opentelemetry.io/collector/pdata/pprofile"
 	"go.opentelemetry.io/collector/verifharness/pview"
 	"go.opentelemetry.io/collector/verifharness/vt"
 )
@@ -161,19 +160,14 @@ func checkBytes(col *vt.C, kind, format string, data []byte, script any) (decode
 		return true, nil
 	}
 	// hidden state: a deprecated scope list that was not migrated is invisible through the API but re-marshaled
-	hidden := false
 	if c.wrap != "resp" {
 		var bpv []byte
 		if p, d := guarded(func() { bpv, err = c.encP(v) }); p || err != nil {
 			return true, vt.Failf("marshal-after-decode/proto/"+kind, "MarshalProto fails on a decoded value: err=%v %s", err, d)
 		}
 		if hasDeprecatedScope(bpv) {
-			hidden = true
-			kf := vt.Failf("deprecated-scope-not-migrated/"+kind+"/"+format,
+			return true, vt.Failf("deprecated-scope-not-migrated/"+kind+"/"+format,
 				"the %s %s unmarshaler leaves the deprecated scope list (field 1000 of the resource entry) unmigrated: it is invisible through the API yet written again by MarshalProto, while the JSON form of the same value loses it (cross-codec disagreement)", kind, format)
-			if !col.Soft(kf, script) {
-				return true, kf
-			}
 		}
 	}
 	// fixed point
@@ -202,34 +196,10 @@ func checkBytes(col *vt.C, kind, format string, data []byte, script any) (decode
 			}
 			return true, f
 		}
-		if format == "json" && c.signal == "profiles" && hasOriginalPayload(c.payload(v)) {
-			// root cause listed: originalPayload is read as raw text, so every trip base64-encodes it once more
-			f = vt.Failf("json-reader-no-base64/Profile.OriginalPayload/json", "not a fixed point under JSON: originalPayload grows by one base64 layer per trip (kind %s)", kind)
-			if col.Soft(f, script) {
-				return true, nil
-			}
-		}
 		return true, f
-	}
-	if hidden {
-		return true, nil // everything below would only re-report the listed root cause
 	}
 	_, _, f = checkValue(col, c, v, false, script)
 	return true, f
-}
-
-func hasOriginalPayload(p any) bool {
-	pd, ok := p.(pprofile.Profiles)
-	if !ok {
-		return false
-	}
-	found := false
-	forEachMessage(pd, func(m any) {
-		if x, ok := m.(pprofile.Profile); ok && x.OriginalPayload().Len() > 0 {
-			found = true
-		}
-	})
-	return found
 }
 
 func cutBytes(format string, b []byte) string {
